@@ -103,7 +103,7 @@ def mk_child(it, i, cmask):
     c.attrs['_hashes'] = ListV([Sym(f'H{i}@{k}', ty='bytes', n=32, key=('ch', i, k)) for k in range(n)])
     c.attrs['_depths'] = ListV([K(100 * (i + 1) + k) for k in range(n)])
     c.attrs['_hash'] = c.attrs['_hashes'].items[-1]
-    return c
+    return cm.reforge(it, c)
 
 
 def ordinary_mask_union(run, prog, rule, where, thorough=False):
